@@ -12,6 +12,7 @@ import Model.Quantity
 import Model.Measure
 import Model.Text
 import Model.Names
+import Model.Serial
 
 namespace Measured
 
@@ -249,6 +250,12 @@ def exec (w : World Î±) (op : String) (args : List (Arg Î±)) : World Î± Ã— Ret Î
   | "ustr", [.unit u] => runCM w (unitStr u) .str
   | "qstr", [.qty q] => runCM w (quantityStr q) .str
   | "ufmt", [.unit u] => runCM w (unitFormatRatio u) .str
+  -- pickle / copy / deepcopy / JSON of a unit: re-enter the interning constructor
+  | "reenter", [.unit u] => runCM w (liftStE (fun s => s.reenterUnit u)) .unit
+  -- pickle / copy of a quantity: same magnitude, the unit re-entered
+  | "qreenter", [.qty q] => runCM w (do let u â† liftStE (fun s => s.reenterUnit q.unit); pure { q with unit := u }) .qty
+  -- JSON / SQL composite of a quantity: the unit travels as `str(unit)` and is parsed back
+  | "qtext", [.qty q] => runCM w (do let t â† unitStr q.unit; let u â† parseUnit w.g t; pure { q with unit := u }) .qty
   | "uparse", [.str t] => runCM w (parseUnit w.g t) .unit
   | "qparse", [.str t] => runCM w (parseQuantity w.g t) .qty
   | _, _ => (w, .err .unmodelled)
